@@ -148,9 +148,13 @@ class SyncModel:
         self.obj_class = {"cal": self.cal, "sched": self.sched, "env": self.env, "agent": self.agent_cls}
         self._cfgs: dict[str, CFG] = {}
         self.queue_of: dict[tuple[str, str], str] = {}
-        self._discover_queues()
-        self.links = {("cal", "scheduler"): "sched", ("sched", "_env"): "env", ("sched", "_agent"): "agent"}
+        self.links = {("cal", "scheduler"): "sched"}
         self._check_links()
+        self._discover_queues()
+        self.init_heap: dict[tuple[str, str], tuple] = {}
+        self.mutable: set[tuple[str, str]] = set()
+        self.session_flag: str | None = None
+        self._discover_fields()
         self.relevant = self._relevant_functions()
 
     def cfg(self, f: FuncInfo) -> CFG:
@@ -162,10 +166,64 @@ class SyncModel:
         init = self.sched.methods.get("__init__")
         if init is None:
             raise AnalysisError("anchor vanished: RLScheduler.__init__")
-        for attr, param in (("_env", "env"), ("_agent", "agent")):
-            ok = any(isinstance(s, ast.Assign) and src(s.targets[0]) == f"self.{attr}" and src(s.value) == param for s in walk_scope(init.node))
-            if not ok:
-                raise AnalysisError(f"anchor vanished: RLScheduler.__init__ no longer stores `{param}` in self.{attr}")
+        # the attributes holding the environment and the agent are whatever the constructor stores its `env` / `agent` parameters in
+        for param in ("env", "agent"):
+            attrs = [s.targets[0].attr for s in walk_scope(init.node) if isinstance(s, ast.Assign) and isinstance(s.targets[0], ast.Attribute)
+                     and src(s.targets[0].value) == init.self_name and src(s.value) == param]
+            if len(attrs) != 1:
+                raise AnalysisError(f"anchor vanished: RLScheduler.__init__ no longer stores its `{param}` parameter in exactly one attribute")
+            self.links[("sched", attrs[0])] = param
+
+    def _discover_fields(self) -> None:
+        """Initial constants of the scheduler/environment attributes (from the constructors), the attributes written outside the
+        constructors (the mutable, possibly shared state) and the session flag (constant-toggled by start_session/end_session)."""
+        prog = self.prog
+        link_of = {(o, a): t for (o, a), t in self.links.items()}
+
+        def stores(fn: FuncInfo):
+            for st_ in walk_scope(fn.node):
+                tgs = st_.targets if isinstance(st_, ast.Assign) else [st_.target] if isinstance(st_, (ast.AugAssign, ast.AnnAssign)) else []
+                val = getattr(st_, "value", None)
+                for t in tgs:
+                    for el in (t.elts if isinstance(t, (ast.Tuple, ast.List)) else [t]):
+                        if isinstance(el, ast.Attribute):
+                            yield el, (val if not isinstance(t, (ast.Tuple, ast.List)) and isinstance(st_, (ast.Assign, ast.AnnAssign)) else None)
+
+        for oname, cls in (("sched", self.sched), ("env", self.env)):
+            for k in reversed(prog.mro(cls)):
+                for m in k.methods.values():
+                    for el, val in stores(m):
+                        owner = None
+                        if isinstance(el.value, ast.Name) and el.value.id == m.self_name:
+                            owner = oname
+                        elif isinstance(el.value, ast.Attribute) and isinstance(el.value.value, ast.Name) and el.value.value.id == m.self_name \
+                                and (oname, el.value.attr) in link_of:
+                            owner = link_of[(oname, el.value.attr)]
+                        if owner is None or owner not in ("sched", "env"):
+                            continue
+                        attr = mangle(k.name, el.attr) if owner == oname else el.attr
+                        if m.name == "__init__" and owner == oname:
+                            if isinstance(val, ast.Constant):
+                                self.init_heap[(owner, attr)] = K(val.value)
+                            else:
+                                self.init_heap.pop((owner, attr), None)
+                        elif m.name != "__init__":
+                            self.mutable.add((owner, attr))
+        self.mutable -= set(self.queue_of)
+        # session flag: a boolean attribute set to one constant by start_session and to the other by end_session
+        def const_stores(name: str) -> dict[str, object]:
+            m = prog.lookup_method(self.sched, name)
+            out: dict[str, object] = {}
+            if m is not None:
+                for el, val in stores(m):
+                    if isinstance(el.value, ast.Name) and el.value.id == m.self_name and isinstance(val, ast.Constant) and isinstance(val.value, bool):
+                        out[el.attr] = val.value
+            return out
+        a, b = const_stores("start_session"), const_stores("end_session")
+        flags = [x for x in a if x in b and a[x] != b[x]]
+        if len(flags) == 1:
+            self.session_flag = flags[0]
+            self.session_flag_idle = b[flags[0]]
 
     def _discover_queues(self) -> None:
         from .props.c04 import attr_type_names
@@ -191,7 +249,8 @@ class SyncModel:
             if isinstance(s, (ast.Assign, ast.AnnAssign)):
                 tgt = s.targets[0] if isinstance(s, ast.Assign) else s.target
                 v = s.value
-                if isinstance(tgt, ast.Attribute) and src(tgt.value) == "self" and isinstance(v, ast.Attribute) and src(v.value) == "self._env" and ("env", v.attr) in parent:
+                env_attr = next(a for (o, a), t in self.links.items() if o == "sched" and t == "env")
+                if isinstance(tgt, ast.Attribute) and src(tgt.value) == init.self_name and isinstance(v, ast.Attribute) and src(v.value) == f"{init.self_name}.{env_attr}" and ("env", v.attr) in parent:
                     parent[("sched", tgt.attr)] = find(("env", v.attr))
         for key in list(parent):
             root = find(key)
@@ -207,7 +266,7 @@ class SyncModel:
         for c in [self.cal, *prog.mro(self.sched), *prog.mro(self.env)]:
             cands.extend(prog.methods_of(c))
         direct: set[str] = set()
-        shared_attrs = {"_stopped", "_best_loss", "_curr_best_loss", "_agent_thread", "_best_param"}
+        shared_attrs = {a for (_, a) in self.mutable}
         for f in cands:
             for x in ast.walk(f.node):
                 if isinstance(x, ast.Attribute) and (x.attr in shared_attrs or any(x.attr == a for (_, a) in self.queue_of)):
@@ -241,7 +300,7 @@ class Machine:
         self.m = model
         self.prog = model.prog
         self.faults = faults
-        self.shared_fields = {("sched", "_stopped"), ("sched", "_best_loss"), ("sched", "_best_param"), ("env", "_curr_best_loss")}
+        self.shared_fields = set(model.mutable)
 
     # ------------------------------------------------------------------ helpers
     def func(self, fq: str) -> FuncInfo:
@@ -660,9 +719,11 @@ class Stepper(Machine):
                 self.violations.append(("C10", f"leftover:{qn}", f"after the session of calibrate() call #{sess + 1} ended, {qn} still holds {self.fmt_msgs(content)}", loc))
         if st.agent is not None and st.agent.status == "run":
             self.violations.append(("C11" if raised else "C10", "thread-left-running", f"after calibrate() call #{sess + 1} {'raised' if raised else 'returned'} the agent thread is still running", loc))
-        stopped = st.h("sched", "_stopped")
-        if st.g("started") and stopped != K(True):
-            self.violations.append(("C11" if raised else "C10", "session-flag-not-reset", f"after calibrate() call #{sess + 1} the session flag is {stopped} (a subsequent calibrate() cannot start a session)", loc))
+        if self.m.session_flag is not None:
+            stopped = st.h("sched", self.m.session_flag)
+            if st.g("started") and stopped != K(self.m.session_flag_idle):
+                self.violations.append(("C11" if raised else "C10", "session-flag-not-reset", f"after calibrate() call #{sess + 1} the session flag `{self.m.session_flag}` is {stopped} "
+                                        "(a subsequent calibrate() cannot start a session)", loc))
         # next call
         plan = st.g("plan", ())
         nxt = sess + 1
@@ -989,10 +1050,10 @@ class Result:
 
 
 def initial_state(stepper: Stepper, plan: tuple[int, ...], configured: dict | None = None) -> State:
-    heap = {
-        ("sched", "_stopped"): K(True), ("sched", "_best_loss"): K(None), ("sched", "_best_param"): K(None), ("sched", "_agent_thread"): K(None),
-        ("env", "_curr_best_loss"): K(None), ("cal", "verbose"): K(False), ("cal", "convergence_precision"): K(None), ("cal", "saving_folder"): K(None),
-    }
+    # constants the constructors give to the scheduler / environment attributes, and the configuration of the calibrator explored
+    # (public Calibrator attributes: quiet, no convergence check, no checkpoint folder)
+    heap = dict(stepper.m.init_heap)
+    heap.update({("cal", "verbose"): K(False), ("cal", "convergence_precision"): K(None), ("cal", "saving_folder"): K(None)})
     heap.update(configured or {})
     st = State(main=Thread(), agent=None, queues=tuple((q, ()) for q in sorted(set(stepper.m.queue_of.values()))), heap=tuple(sorted(heap.items())), ghost=(("plan", plan),))
     return stepper.start_calibrate(st, plan[0])
